@@ -1,0 +1,28 @@
+//go:build verif
+
+package dns_naming
+
+// Contracts for the byte-level helpers of the naming handler (C08): total on arbitrary bytes.
+
+func verif_inv_dns_naming_parseNodeNameArray_1(b []byte, n int, i int) bool {
+	return 0 <= i && i <= n && 0 <= n && n <= 255 && len(b) >= n*18 // (what the function's own length check establishes)
+}
+func verif_dec_dns_naming_parseNodeNameArray_1(n int, i int) int { return n - i }
+
+// parseNodeNameArray (NBNS node status response): returns for every byte string, never panics.
+//
+//verif:props C08
+func verif_contract_dns_naming_parseNodeNameArray(b []byte) ([]string, error) {
+	vCanary()
+	vModifiesMems("elem:string") // the result slice
+	names, err := parseNodeNameArray(b)
+	return names, err
+}
+
+// processNBNSNodeStatusResponse: the same for the enclosing record data.
+//
+//verif:props C08
+func verif_lemma_nbns_nodestatus_total(b []byte) {
+	vCanary()
+	_, _ = processNBNSNodeStatusResponse(b)
+}
